@@ -5,3 +5,11 @@ C12_spline_SRCS  := tools/src/libtools/spline.cc tools/src/libtools/cubicspline.
 C12_spline_FLAGS := $(EIGEN_THROW) -D_GLIBCXX_ASSERTIONS -include stdexcept $(SAN)
 C12_spline_LIBS  := $(LIBTOOLS)
 C12_spline_DEPS  := $(TOOLSSO)
+
+# process histories: NO sanitizers on purpose (the allocator must be free to reuse a destroyed spline's buffer)
+HARNESSES += C12_proc
+C12_proc_SRCS  := tools/src/libtools/spline.cc tools/src/libtools/cubicspline.cc tools/src/libtools/akimaspline.cc \
+                  tools/src/libtools/linspline.cc tools/src/libtools/linalg.cc
+C12_proc_FLAGS := $(EIGEN_THROW) -include stdexcept
+C12_proc_LIBS  := $(LIBTOOLS)
+C12_proc_DEPS  := $(TOOLSSO)
